@@ -51,7 +51,12 @@ FileBasedTestbenchRecorder::FileBasedTestbenchRecorder(VHDLExport &exporter, AST
 
 FileBasedTestbenchRecorder::~FileBasedTestbenchRecorder()
 {
-	flush(m_simulator.getCurrentSimulationTime());// + Seconds{1,1'000'000'000'000ull});
+	auto end = m_simulator.getCurrentSimulationTime();
+	// Whatever is still pending was recorded after the last flush, i.e. after the clock edges of that time. If the simulation ends at
+	// that very time, write it behind it: one picosecond per phase.
+	if (end == m_flushIntervalStart)
+		end += Seconds{2 + m_phases.size(), 1'000'000'000'000ull};
+	flush(end);
 }
 
 void FileBasedTestbenchRecorder::writeVHDL()
@@ -353,6 +358,7 @@ void FileBasedTestbenchRecorder::onPowerOn()
 
 	m_writtenSimulationTime = 0;
 	m_flushIntervalStart = 0;
+	m_pendingAfterEdge = false;
 	m_phases.push_back({});
 }
 
@@ -370,8 +376,23 @@ void FileBasedTestbenchRecorder::onNewTick(const hlim::ClockRational &simulation
 
 void FileBasedTestbenchRecorder::onNewPhase(size_t phase)
 {
+	if (phase == sim::WaitClock::BEFORE) {
+		// A time step that is entered again after it was flushed (e.g. WaitStable followed by a zero delay): what has been recorded since
+		// that flush happened after the clock edges of this time and must not be written at this time. (If nothing is pending, this pass
+		// is the one in which processes waiting BEFORE the clock run: what they do belongs exactly to this time.)
+		auto isEmpty = [](const Phase &p) { return p.assertStatements.str().empty() && p.signalOverrides.empty() && p.resetOverrides.empty(); };
+		m_pendingAfterEdge = false;
+		if (m_simulator.getCurrentSimulationTime() == m_flushIntervalStart) {
+			m_pendingAfterEdge = !isEmpty(m_postDuringPhase);
+			for (const auto &p : m_phases)
+				m_pendingAfterEdge |= !isEmpty(p);
+		}
+	}
 	if (phase == sim::WaitClock::AFTER) {
-		flush(m_simulator.getCurrentSimulationTime());
+		if (m_pendingAfterEdge)
+			m_phases.push_back({}); // keep everything for the next interval
+		else
+			flush(m_simulator.getCurrentSimulationTime());
 		m_phases.back() = std::move(m_postDuringPhase); // Have all the assignments from the previous DURING phase be the first thing in the next interval
 		m_phases.push_back({});
 	}
